@@ -6,6 +6,7 @@ import (
 	"strings"
 
 	"mltwist/internal/deps"
+	"mltwist/internal/elf"
 	"mltwist/internal/emulator"
 	"mltwist/internal/exprtransform"
 	"mltwist/internal/parser"
@@ -34,6 +35,9 @@ type rvProgram struct {
 	text  []string
 	data  []byte
 	entry uint64
+	// bss is the number of zero bytes the image holds behind data (non-zero
+	// only when the program is loaded through an ELF file).
+	bss int
 }
 
 func (p *rvProgram) String() string {
@@ -185,6 +189,9 @@ func (p *rvProgram) imageByte(a uint64) (byte, bool) {
 	if a >= rvDataBase && a < rvDataBase+rvDataLen {
 		return p.data[a-rvDataBase], true
 	}
+	if a >= rvDataBase+rvDataLen && a < rvDataBase+rvDataLen+uint64(p.bss) {
+		return 0, true
+	}
 	return 0, false
 }
 
@@ -293,7 +300,57 @@ func (pr *rvProvider) Memory(key expr.Key, addr model.Addr, w expr.Width) expr.C
 
 // newRVHarness builds emulator and reference for program p.
 func newRVHarness(t *rapid.T, p *rvProgram, lazy bool) (*rvHarness, error) {
-	code, err := buildRVCode(p)
+	return newRVHarnessVia(t, p, lazy, false)
+}
+
+// loadViaELF wraps p into an ELF executable, writes it to the scratch
+// directory and loads it exactly as cmd/mltwist/main.go does: elf.NewParser,
+// MachineCode, Memory, parser.Parse, deps.NewCode.
+func loadViaELF(p *rvProgram) (*deps.Code, []memory.ByteBlock, error) {
+	m := programELF(p)
+	file, _ := m.Bytes()
+	name := writeScratch(file)
+	ep, err := elf.NewParser(name)
+	if err != nil {
+		return nil, nil, err
+	}
+	defer ep.Close()
+	codeMem, err := ep.MachineCode()
+	if err != nil {
+		return nil, nil, err
+	}
+	mem, err := ep.Memory()
+	if err != nil {
+		return nil, nil, err
+	}
+	prs, _ := rvParser(rv64ima)
+	ins, err := parser.Parse(codeMem, prs)
+	if err != nil {
+		return nil, nil, err
+	}
+	code, err := deps.NewCode(ep.Entrypoint(), ins)
+	if err != nil {
+		return nil, nil, err
+	}
+	blocks := make([]memory.ByteBlock, len(mem.Blocks))
+	for i, b := range mem.Blocks {
+		blocks[i] = b
+	}
+	return code, blocks, nil
+}
+
+// newRVHarnessVia builds emulator and reference; with viaELF the program takes
+// the whole path of the real tool from an ELF file.
+func newRVHarnessVia(t *rapid.T, p *rvProgram, lazy bool, viaELF bool) (*rvHarness, error) {
+	var code *deps.Code
+	var elfBlocks []memory.ByteBlock
+	var err error
+	if viaELF {
+		p.bss = 64
+		code, elfBlocks, err = loadViaELF(p)
+	} else {
+		code, err = buildRVCode(p)
+	}
 	if err != nil {
 		return nil, err
 	}
@@ -323,6 +380,9 @@ func newRVHarness(t *rapid.T, p *rvProgram, lazy bool) (*rvHarness, error) {
 		rvImageBlock{rvCodeBase, p.codeBytes()},
 		rvImageBlock{rvDataBase, append([]byte{}, p.data...)},
 	}
+	if viaELF {
+		blocks = elfBlocks
+	}
 	byteMem, err := memory.NewBytes(blocks)
 	if err != nil {
 		return nil, err
@@ -331,7 +391,7 @@ func newRVHarness(t *rapid.T, p *rvProgram, lazy bool) (*rvHarness, error) {
 	for a := uint64(rvCodeBase); a < rvCodeBase+4*uint64(len(p.words)); a++ {
 		h.knownByte[a] = true
 	}
-	for a := uint64(rvDataBase); a < rvDataBase+rvDataLen; a++ {
+	for a := uint64(rvDataBase); a < rvDataBase+rvDataLen+uint64(p.bss); a++ {
 		h.knownByte[a] = true
 	}
 
